@@ -13,6 +13,10 @@
 (*   "after"   after the last resolver passed its gate (all gates open)    *)
 (*   "race"    resolver n is blocked; its gate is opened and the context   *)
 (*             fired concurrently, in either order                         *)
+(*   "racek" pk  resolver pk < n is blocked, every other gate is open; its *)
+(*             gate is opened and the context fired concurrently: the      *)
+(*             remaining resolvers run on while the context is done, so    *)
+(*             completion and cancellation race with work still to do      *)
 (*                                                                         *)
 (* The harness' discipline is part of the model: every gate that is not    *)
 (* opened up front (and, for "race", gate n) stays shut until the call has *)
@@ -34,12 +38,13 @@ UpFront(p, q, m) ==          \* gates the harness opens before the call
     [] p = "res"    -> 0..(q - 1)
     [] p = "after"  -> 0..m
     [] p = "race"   -> 0..(m - 1)
+    [] p = "racek"  -> (0..m) \ {q}
 
 MCInit ==
   /\ n \in 1..N
   /\ obs \in [1..n -> BOOLEAN]
-  /\ pos \in {"none", "pre", "coerce", "res", "after", "race"}
-  /\ pk \in IF pos = "res" THEN 1..n ELSE {0}
+  /\ pos \in {"none", "pre", "coerce", "res", "after", "race"} \cup (IF n >= 2 THEN {"racek"} ELSE {})
+  /\ pk \in IF pos = "res" THEN 1..n ELSE IF pos = "racek" THEN 1..(n - 1) ELSE {0}
   /\ kind \in IF pos = "none" THEN {"cancelled"} ELSE {"cancelled", "deadline"}
   /\ ctx = "live" /\ open = UpFront(pos, pk, n)
   /\ cpc = "idle" /\ ret = NoRet
@@ -53,12 +58,14 @@ FireAllowed ==
     [] pos = "res"    -> epc = "res" /\ k = pk /\ pk \notin open
     [] pos = "after"  -> epc \in {"pub", "done"}
     [] pos = "race"   -> (epc = "res" /\ k = n) \/ epc \in {"pub", "done"}
+    [] pos = "racek"  -> (epc = "res" /\ k >= pk) \/ epc \in {"pub", "done"}
 
 CallAllowed == (pos = "pre") => ctx # "live"
 
 ReleaseAllowed(g) ==
   \/ cpc = "ret"                                   \* remaining gates: only after the call returned
   \/ pos = "race" /\ g = n /\ epc = "res" /\ k = n \* the racing release
+  \/ pos = "racek" /\ g = pk /\ epc = "res" /\ k = pk
 
 MCNext ==
   /\ UNCHANGED <<pos, pk, kind>>
